@@ -796,6 +796,8 @@ fn check_remove_dir(dir_path: impl AsRef<Path>) -> Result<(), ChunkCacheError> {
     if readdir.peekable().peek().is_some() {
         return Ok(());
     }
+    #[cfg(xet_verif)]
+    utils::verif::point("cc.rmdir.found_empty");
     // directory empty, remove it
     remove_dir(&dir_path)?;
 
